@@ -286,8 +286,6 @@ def _alpha_recover(text, spec, what, log):
 # It is used for one thing only: to recognise that identifiers of the current function are *renamings* of baseline
 # identifiers (same place in the same token context), so that they can be alpha-renamed back. The text that is verified is
 # always the current tree's.
-_BASE = {}
-_BASE_OUT = None
 
 
 def _free_idents(m, toks):
@@ -310,7 +308,7 @@ def _free_idents(m, toks):
 
 
 def _alpha_recover_baseline(text, what, log):
-    base = _BASE.get(what)
+    base = log.get('_base', {}).get(what)
     if not base:
         return text
     import difflib
@@ -506,8 +504,8 @@ def build_item(src, spec, idx, log):
     # 1. catalogued rewrites
     text = rewrite.apply(text, spec.rules, what, log)
     # 1b. RA: undo renamings of locals / parameters (hints and contracts are written with the old names)
-    if _BASE_OUT is not None:
-        _BASE_OUT[what] = [t for t, _, _ in _tokens(mask(text))]
+    if log.get('_base_out') is not None:
+        log['_base_out'][what] = [t for t, _, _ in _tokens(mask(text))]
     text = _alpha_recover_baseline(text, what, log)
     text = _alpha_recover(text, spec, what, log)
     # 2. logged literal substitutions
@@ -855,22 +853,22 @@ def build_unit(name, template_text, sources, read_template=None):
     log = {'rewrites': [], 'subs': [], 'dropped': 'doc comments, attributes (#[derive], #[inline], ...), '
            'items not named by the unit'}
     parts = parse_template(template_text)
-    global _BASE, _BASE_OUT
     import json as _json
     import os as _os
-    bpath = _os.path.join(_os.path.dirname(_os.path.dirname(_os.path.abspath(__file__))), 'specs', 'baseline', name + '.json')
-    _BASE = {}
-    _BASE_OUT = {} if _os.environ.get('VX_BASELINE_RECORD') else None
     import hashlib as _h
+    # (per unit, kept in the unit's own log while it is built: units are built concurrently)
+    bpath = _os.path.join(_os.path.dirname(_os.path.dirname(_os.path.abspath(__file__))), 'specs', 'baseline', name + '.json')
+    log['_base'] = {}
+    log['_base_out'] = {} if _os.environ.get('VX_BASELINE_RECORD') else None
     here = _os.path.dirname(_os.path.abspath(__file__))
     stamp = _h.sha256((template_text + open(_os.path.join(here, 'unit.py')).read()
                        + open(_os.path.join(here, 'rewrite.py')).read()).encode()).hexdigest()[:16]
-    if _BASE_OUT is None and _os.path.isfile(bpath):
+    if log['_base_out'] is None and _os.path.isfile(bpath):
         with open(bpath) as fh:
             d = _json.load(fh)
         # a baseline recorded for another version of the template or of the extractor is not used (bin/mkbaseline re-records)
         if d.get('_stamp') == stamp:
-            _BASE = {k: v.split(' ') for k, v in d.items() if k != '_stamp'}
+            log['_base'] = {k: v.split(' ') for k, v in d.items() if k != '_stamp'}
         else:
             log['rewrites'].append({'rule': 'RA', 'item': name, 'count': 0, 'note': 'recorded baseline is stale (template or extractor changed): not used'})
     lines = []
@@ -989,10 +987,12 @@ def build_unit(name, template_text, sources, read_template=None):
             raise ExtractError('template has no `} // verus!` line')
         gen = [GenLine(l, ('tmpl', 0)) for d in decls for l in d.split('\n')]
         lines[k:k] = gen
-    if _BASE_OUT is not None:
+    base_out = log.pop('_base_out', None)
+    log.pop('_base', None)
+    if base_out is not None:
         _os.makedirs(_os.path.dirname(bpath), exist_ok=True)
         with open(bpath, 'w') as fh:
-            out = {k: ' '.join(v) for k, v in sorted(_BASE_OUT.items())}
+            out = {k: ' '.join(v) for k, v in sorted(base_out.items())}
             out['_stamp'] = stamp
             _json.dump(out, fh, indent=0)
     return Unit(name, lines, items, log)
